@@ -543,10 +543,39 @@ func (e *Engine) preludeFor(query string) string {
 // ghost-event hooks (sequential abstraction of concurrency primitives)
 
 func (e *Engine) selectChoice(c *Ctx, s *State, x *ast.SelectStmt, i int) {}
-func (e *Engine) onSend(c *Ctx, s *State, x *ast.SendStmt, ch, v Value)   {}
+// onSend: a send on call.ResultChan() is the delivery of a result to that call (ghost ledger X.delivered[call] += 1).
+func (e *Engine) onSend(c *Ctx, s *State, x *ast.SendStmt, ch, v Value) {
+	call, ok := unparen(x.Chan).(*ast.CallExpr)
+	if !ok {
+		return
+	}
+	se, ok := unparen(call.Fun).(*ast.SelectorExpr)
+	if !ok || se.Sel.Name != "ResultChan" {
+		return
+	}
+	recv := asInt(c.eval(se.X, s))
+	m := c.heapGet(s, "X.delivered", sA1)
+	c.heapSet(s, "X.delivered", sA1, store(m, recv, add(sel(m, recv), "1")))
+	c.frameWrites["X.delivered"] = true
+	c.note("a send on call.ResultChan() counts as one delivery to that call (ghost X.delivered); blocking is not modelled")
+}
 func (e *Engine) onGo(c *Ctx, s *State, x *ast.GoStmt)                    {}
 func (e *Engine) onClose(c *Ctx, s *State, x *ast.CallExpr, ch Value)     {}
+// onLock: ghost count of mutexes held by the executing goroutine (pairing of Lock/Unlock on every path; "emission under a
+// lock" obligations).
 func (e *Engine) onLock(c *Ctx, s *State, x *ast.CallExpr, op string, recv Value) {
+	cur := c.heapGet(s, "X.nheld", sInt)
+	switch op {
+	case "Lock", "RLock":
+		c.heapSet(s, "X.nheld", sInt, add(cur, "1"))
+		c.touchedLocks = true
+	case "Unlock", "RUnlock":
+		if c.checkPanics {
+			c.oblige(s, "unlock", c.text(x), x.Pos(), gt(cur, "0"), c.panicTags)
+		}
+		c.heapSet(s, "X.nheld", sInt, sub(cur, "1"))
+		c.touchedLocks = true
+	}
 }
 
 // ---------------------------------------------------------------------------------------------
@@ -764,6 +793,7 @@ func (e *Engine) verifyFunc(key string) (c *Ctx, err error) {
 		c.note("TRUSTED contract (body not verified): " + key + " — " + k.Trusted)
 		return c, nil
 	}
+	s.assume(le("0", c.heapGet(s, "X.nheld", sInt))) // ghost count of held mutexes
 	c.smoke(s, "entry", fi.decl.Body.Lbrace)
 	exits := c.execBlock(fi.decl.Body.List, s)
 	nret := 0
@@ -780,6 +810,11 @@ func (e *Engine) verifyFunc(key string) (c *Ctx, err error) {
 				label = fmt.Sprintf("return %d", c.retOrd[ex.ret])
 			}
 			c.atClauses(ex.s, label, pos)
+			if c.touchedLocks {
+				// every mutex taken by the function is released on this path
+				c.oblige(ex.s, "lock-balance@"+strings.ReplaceAll(label, " ", ""), "locks held at exit == locks held at entry", pos,
+					eq(c.heapGet(ex.s, "X.nheld", sInt), c.heapGet(c.entry, "X.nheld", sInt)), nil)
+			}
 			for i, en := range k.Ensures {
 				g := c.cevalBool(en.Expr, ex.s, c.entryParams(), fi.decl.Body.Lbrace+1)
 				c.oblige(ex.s, fmt.Sprintf("post%d@%s", i+1, strings.ReplaceAll(label, " ", "")), en.Text, pos, g, en.Tags)
@@ -906,7 +941,7 @@ func (c *Ctx) frameCheck(pos token.Pos) {
 	}
 	var bad []string
 	for key := range c.frameWrites {
-		if strings.HasPrefix(key, "L.") {
+		if strings.HasPrefix(key, "L.") || key == "X.nheld" {
 			continue
 		}
 		if !covered(key) {
